@@ -239,8 +239,15 @@ class EllipsoidART(BaseART):
             # the sample coincides with the centroid: nothing to move towards
             centroid_new = centroid
 
+        # the second pattern coded by a category (radius still 0) fixes the
+        # direction of its major axis; later patterns leave it alone
         axis_norm = np.sqrt(l2norm2((i - centroid_new)))
-        if not radius == 0.0 and axis_norm > 0:
+        if (
+            radius == 0.0
+            and radius_new > 0.0
+            and not major_axis.any()
+            and axis_norm > 0
+        ):
             major_axis_new = (i - centroid_new) / axis_norm
         else:
             major_axis_new = major_axis
